@@ -86,6 +86,9 @@ func c06(x *runCtx) {
 			c06Kind(x, ctx, r, k, enc)
 		}
 	}
+	// the expiry the blob is *stored* with, on the SQLite backend with the real clock: registered for an hour, then for two
+	// seconds; three seconds later the registration is gone
+	c07SqliteExpiry(x, "C06", lab.KindByName("P-384"), protocol.X509KeyEnc)
 }
 
 func c06Kind(x *runCtx, ctx context.Context, r *rand.Rand, k lab.Kind, enc protocol.KeyEncoding) {
